@@ -30,7 +30,7 @@ ASSUMPTIONS = ["the unwrapped artefact is the reference for what the wrapped one
 CORE_ALLOWED = c05._CORE_GENERAL
 FRONTIER_KNOBS = ()
 FLOORS = {}
-_CFG = {"irs": 10, "widths": ["unset", 40, 41, 60, 79, 80, 100, 119, 120, 200]}
+_CFG = {"irs": 10, "widths": ["unset", 40, 41, 60, 79, 80, 100, 119, 120, 200], "tidy": False}
 
 
 def budgets(tier):
@@ -50,8 +50,13 @@ def mod():
 @st.composite
 def _ir(draw):
     # wrapped and unwrapped artefacts of the SAME description are compared, so every shape is fair game
-    ir = draw(domain.ir_strategy(allowed=tuple(domain.MUTATORS), min_params=1, max_params=4,
-                                 forced=draw(st.sampled_from((None, "str_with_space", "str_with_space", "returns_default", "code_default", "spaced_literal")))))
+    if _CFG.get("tidy"):
+        # boundary phase: descriptions without any finding shape, so that "nothing may change at the width that fits
+        # exactly" is judged strictly in every style
+        ir = draw(domain.ir_strategy(allowed=tuple(CORE_ALLOWED), min_params=1, max_params=4))
+    else:
+        ir = draw(domain.ir_strategy(allowed=tuple(domain.MUTATORS), min_params=1, max_params=4,
+                                     forced=draw(st.sampled_from((None, "str_with_space", "str_with_space", "returns_default", "code_default", "spaced_literal")))))
     for i, p in enumerate(ir["params"]):
         if "doc" in p and not re.search(r"(?i)defaults to|default value is|default:", p["doc"]):
             # (prose that already announces a value keeps its end: words appended after '... defaults to 32' would
@@ -220,7 +225,7 @@ def extra_phases(coll, tier, seed_value, shard, nshards):
         _CFG.update(irs=3, widths=["unset"] + list(range(40, 201)))
         hyp_survey(mod(), coll, "core", None, 1 if tier == "quick" else 6, (seed_value + 4242) % (2 ** 32))
         # widths placed exactly on the line lengths of the batch's own artefacts
-        _CFG.update(irs=4, widths="boundary")
+        _CFG.update(irs=4, widths="boundary", tidy=True)
         hyp_survey(mod(), coll, "core", None, 3 if tier == "quick" else 24, (seed_value + 9191) % (2 ** 32))
     finally:
         _CFG.update(saved)
